@@ -1,0 +1,407 @@
+/*
+ * Verification-only synchronisation shims.
+ *
+ * This module only exists with the cargo feature `isographlabs_isograph_verif`
+ * (never enabled by the workspace itself).  With the feature on, `atomic_arena`,
+ * `sharded_set` and `intern` use these types instead of `std::sync::atomic` /
+ * `parking_lot`, so that an external schedule explorer can take control at
+ * every synchronisation operation:
+ *
+ * * every operation first calls the settable *schedule hook* (a no-op when
+ *   unset), which a cooperative scheduler uses as its context-switch point;
+ * * every operation then reports what it did to the settable *event hook*
+ *   (a no-op when unset; there is no schedule point between the operation and
+ *   its report);
+ * * locks are try-lock + schedule-hook loops, so a de-scheduled lock owner can
+ *   never block the (single) OS thread a cooperative scheduler runs on.
+ *
+ * The shims forward to the real `std` atomics with the orderings the callers
+ * pass, and expose exactly the `parking_lot` method subset this crate uses.
+ */
+
+use std::cell::UnsafeCell;
+use std::fmt;
+use std::ops::Deref;
+use std::ops::DerefMut;
+use std::sync::atomic as real;
+use std::sync::atomic::Ordering;
+
+/// Why the schedule hook is being called.
+#[derive(Clone, Copy, Debug, PartialEq, Eq)]
+pub enum Point {
+    /// Immediately before a synchronisation operation.
+    Op,
+    /// A lock acquisition attempt failed and is about to be retried.
+    Spin,
+}
+
+#[derive(Clone, Copy, Debug, PartialEq, Eq, Hash)]
+pub enum EventKind {
+    /// Atomic load; `value` is the value read (pointers: the address).
+    Load,
+    /// Atomic store; `value` is the value written.
+    Store,
+    /// `fetch_add`; `value` is the previous value.
+    FetchAdd,
+    /// Successful `compare_exchange`; `value` is the previous value.
+    CasOk,
+    /// Failed `compare_exchange`; `value` is the value found.
+    CasFail,
+    /// Mutex acquired.
+    MutexLock,
+    /// Mutex acquisition attempt failed (will be retried).
+    MutexBusy,
+    /// Mutex released.
+    MutexUnlock,
+    /// Read lock acquired.
+    ReadLock,
+    /// Read lock attempt failed (will be retried).
+    ReadBusy,
+    /// Read lock released.
+    ReadUnlock,
+    /// Write lock acquired by `write()`.
+    WriteLock,
+    /// Write lock attempt inside `write()` failed (will be retried).
+    WriteBusy,
+    /// `try_write()` succeeded.
+    TryWriteOk,
+    /// `try_write()` failed.
+    TryWriteFail,
+    /// Write lock released.
+    WriteUnlock,
+}
+
+/// What an operation did; `addr` identifies the atomic / lock.
+#[derive(Clone, Copy, Debug, PartialEq, Eq)]
+pub struct Event {
+    pub kind: EventKind,
+    pub addr: usize,
+    pub value: u64,
+}
+
+static SCHEDULE_HOOK: real::AtomicUsize = real::AtomicUsize::new(0);
+static EVENT_HOOK: real::AtomicUsize = real::AtomicUsize::new(0);
+
+/// Install (or remove) the process-wide hooks.
+pub fn set_hooks(schedule: Option<fn(Point)>, event: Option<fn(Event)>) {
+    SCHEDULE_HOOK.store(schedule.map_or(0, |f| f as usize), Ordering::SeqCst);
+    EVENT_HOOK.store(event.map_or(0, |f| f as usize), Ordering::SeqCst);
+}
+
+#[inline]
+fn point(p: Point) {
+    let h = SCHEDULE_HOOK.load(Ordering::Relaxed);
+    if h != 0 {
+        // SAFETY: only `set_hooks` writes this cell, from a `fn(Point)`.
+        let f: fn(Point) = unsafe { std::mem::transmute::<usize, fn(Point)>(h) };
+        f(p);
+    } else if p == Point::Spin {
+        std::thread::yield_now();
+    }
+}
+
+#[inline]
+fn event<T: ?Sized>(kind: EventKind, of: &T, value: u64) {
+    let h = EVENT_HOOK.load(Ordering::Relaxed);
+    if h != 0 {
+        // SAFETY: only `set_hooks` writes this cell, from a `fn(Event)`.
+        let f: fn(Event) = unsafe { std::mem::transmute::<usize, fn(Event)>(h) };
+        f(Event {
+            kind,
+            addr: of as *const T as *const u8 as usize,
+            value,
+        });
+    }
+}
+
+/// Shim for `std::sync::atomic::AtomicU32`.
+#[repr(transparent)]
+pub struct AtomicU32(real::AtomicU32);
+
+impl AtomicU32 {
+    pub const fn new(v: u32) -> Self {
+        AtomicU32(real::AtomicU32::new(v))
+    }
+
+    pub fn load(&self, order: Ordering) -> u32 {
+        point(Point::Op);
+        let v = self.0.load(order);
+        event(EventKind::Load, self, u64::from(v));
+        v
+    }
+
+    pub fn store(&self, v: u32, order: Ordering) {
+        point(Point::Op);
+        self.0.store(v, order);
+        event(EventKind::Store, self, u64::from(v));
+    }
+
+    pub fn fetch_add(&self, v: u32, order: Ordering) -> u32 {
+        point(Point::Op);
+        let old = self.0.fetch_add(v, order);
+        event(EventKind::FetchAdd, self, u64::from(old));
+        old
+    }
+
+    pub fn compare_exchange(
+        &self,
+        current: u32,
+        new: u32,
+        success: Ordering,
+        failure: Ordering,
+    ) -> Result<u32, u32> {
+        point(Point::Op);
+        let r = self.0.compare_exchange(current, new, success, failure);
+        match r {
+            Ok(old) => event(EventKind::CasOk, self, u64::from(old)),
+            Err(found) => event(EventKind::CasFail, self, u64::from(found)),
+        }
+        r
+    }
+}
+
+impl Default for AtomicU32 {
+    fn default() -> Self {
+        Self::new(0)
+    }
+}
+
+impl fmt::Debug for AtomicU32 {
+    fn fmt(&self, f: &mut fmt::Formatter<'_>) -> fmt::Result {
+        self.0.fmt(f)
+    }
+}
+
+/// Shim for `std::sync::atomic::AtomicPtr`.
+#[repr(transparent)]
+pub struct AtomicPtr<T>(real::AtomicPtr<T>);
+
+impl<T> AtomicPtr<T> {
+    pub const fn new(p: *mut T) -> Self {
+        AtomicPtr(real::AtomicPtr::new(p))
+    }
+
+    pub fn load(&self, order: Ordering) -> *mut T {
+        point(Point::Op);
+        let p = self.0.load(order);
+        event(EventKind::Load, self, p as usize as u64);
+        p
+    }
+
+    pub fn store(&self, p: *mut T, order: Ordering) {
+        point(Point::Op);
+        self.0.store(p, order);
+        event(EventKind::Store, self, p as usize as u64);
+    }
+}
+
+impl<T> fmt::Debug for AtomicPtr<T> {
+    fn fmt(&self, f: &mut fmt::Formatter<'_>) -> fmt::Result {
+        self.0.fmt(f)
+    }
+}
+
+/// Shim for `parking_lot::Mutex`.
+pub struct Mutex<T: ?Sized> {
+    locked: real::AtomicBool,
+    data: UnsafeCell<T>,
+}
+
+unsafe impl<T: ?Sized + Send> Send for Mutex<T> {}
+unsafe impl<T: ?Sized + Send> Sync for Mutex<T> {}
+
+/// Shim for `parking_lot::const_mutex`.
+pub const fn const_mutex<T>(val: T) -> Mutex<T> {
+    Mutex::new(val)
+}
+
+impl<T> Mutex<T> {
+    pub const fn new(val: T) -> Self {
+        Mutex {
+            locked: real::AtomicBool::new(false),
+            data: UnsafeCell::new(val),
+        }
+    }
+}
+
+impl<T: ?Sized> Mutex<T> {
+    pub fn lock(&self) -> MutexGuard<'_, T> {
+        point(Point::Op);
+        loop {
+            if self
+                .locked
+                .compare_exchange(false, true, Ordering::Acquire, Ordering::Relaxed)
+                .is_ok()
+            {
+                event(EventKind::MutexLock, &self.locked, 0);
+                return MutexGuard { mutex: self };
+            }
+            event(EventKind::MutexBusy, &self.locked, 0);
+            point(Point::Spin);
+        }
+    }
+}
+
+impl<T: Default> Default for Mutex<T> {
+    fn default() -> Self {
+        Self::new(T::default())
+    }
+}
+
+impl<T: ?Sized> fmt::Debug for Mutex<T> {
+    fn fmt(&self, f: &mut fmt::Formatter<'_>) -> fmt::Result {
+        write!(f, "verif_sync::Mutex")
+    }
+}
+
+pub struct MutexGuard<'a, T: ?Sized> {
+    mutex: &'a Mutex<T>,
+}
+
+impl<T: ?Sized> Deref for MutexGuard<'_, T> {
+    type Target = T;
+    fn deref(&self) -> &T {
+        unsafe { &*self.mutex.data.get() }
+    }
+}
+
+impl<T: ?Sized> DerefMut for MutexGuard<'_, T> {
+    fn deref_mut(&mut self) -> &mut T {
+        unsafe { &mut *self.mutex.data.get() }
+    }
+}
+
+impl<T: ?Sized> Drop for MutexGuard<'_, T> {
+    fn drop(&mut self) {
+        self.mutex.locked.store(false, Ordering::Release);
+        event(EventKind::MutexUnlock, &self.mutex.locked, 0);
+    }
+}
+
+const WRITER: usize = usize::MAX;
+
+/// Shim for `parking_lot::RwLock`: `state` is 0 when free, `WRITER` when
+/// write-locked, otherwise the number of readers.
+pub struct RwLock<T: ?Sized> {
+    state: real::AtomicUsize,
+    data: UnsafeCell<T>,
+}
+
+unsafe impl<T: ?Sized + Send> Send for RwLock<T> {}
+unsafe impl<T: ?Sized + Send + Sync> Sync for RwLock<T> {}
+
+impl<T> RwLock<T> {
+    pub const fn new(val: T) -> Self {
+        RwLock {
+            state: real::AtomicUsize::new(0),
+            data: UnsafeCell::new(val),
+        }
+    }
+}
+
+impl<T: ?Sized> RwLock<T> {
+    fn try_acquire_write(&self) -> bool {
+        self.state
+            .compare_exchange(0, WRITER, Ordering::Acquire, Ordering::Relaxed)
+            .is_ok()
+    }
+
+    fn try_acquire_read(&self) -> bool {
+        let s = self.state.load(Ordering::Relaxed);
+        s != WRITER
+            && s != WRITER - 1
+            && self
+                .state
+                .compare_exchange(s, s + 1, Ordering::Acquire, Ordering::Relaxed)
+                .is_ok()
+    }
+
+    pub fn read(&self) -> RwLockReadGuard<'_, T> {
+        point(Point::Op);
+        loop {
+            if self.try_acquire_read() {
+                event(EventKind::ReadLock, &self.state, 0);
+                return RwLockReadGuard { lock: self };
+            }
+            event(EventKind::ReadBusy, &self.state, 0);
+            point(Point::Spin);
+        }
+    }
+
+    pub fn write(&self) -> RwLockWriteGuard<'_, T> {
+        point(Point::Op);
+        loop {
+            if self.try_acquire_write() {
+                event(EventKind::WriteLock, &self.state, 0);
+                return RwLockWriteGuard { lock: self };
+            }
+            event(EventKind::WriteBusy, &self.state, 0);
+            point(Point::Spin);
+        }
+    }
+
+    pub fn try_write(&self) -> Option<RwLockWriteGuard<'_, T>> {
+        point(Point::Op);
+        if self.try_acquire_write() {
+            event(EventKind::TryWriteOk, &self.state, 0);
+            Some(RwLockWriteGuard { lock: self })
+        } else {
+            event(EventKind::TryWriteFail, &self.state, 0);
+            None
+        }
+    }
+}
+
+impl<T: Default> Default for RwLock<T> {
+    fn default() -> Self {
+        Self::new(T::default())
+    }
+}
+
+impl<T: ?Sized> fmt::Debug for RwLock<T> {
+    fn fmt(&self, f: &mut fmt::Formatter<'_>) -> fmt::Result {
+        write!(f, "verif_sync::RwLock")
+    }
+}
+
+pub struct RwLockReadGuard<'a, T: ?Sized> {
+    lock: &'a RwLock<T>,
+}
+
+impl<T: ?Sized> Deref for RwLockReadGuard<'_, T> {
+    type Target = T;
+    fn deref(&self) -> &T {
+        unsafe { &*self.lock.data.get() }
+    }
+}
+
+impl<T: ?Sized> Drop for RwLockReadGuard<'_, T> {
+    fn drop(&mut self) {
+        self.lock.state.fetch_sub(1, Ordering::Release);
+        event(EventKind::ReadUnlock, &self.lock.state, 0);
+    }
+}
+
+pub struct RwLockWriteGuard<'a, T: ?Sized> {
+    lock: &'a RwLock<T>,
+}
+
+impl<T: ?Sized> Deref for RwLockWriteGuard<'_, T> {
+    type Target = T;
+    fn deref(&self) -> &T {
+        unsafe { &*self.lock.data.get() }
+    }
+}
+
+impl<T: ?Sized> DerefMut for RwLockWriteGuard<'_, T> {
+    fn deref_mut(&mut self) -> &mut T {
+        unsafe { &mut *self.lock.data.get() }
+    }
+}
+
+impl<T: ?Sized> Drop for RwLockWriteGuard<'_, T> {
+    fn drop(&mut self) {
+        self.lock.state.store(0, Ordering::Release);
+        event(EventKind::WriteUnlock, &self.lock.state, 0);
+    }
+}
